@@ -1,5 +1,5 @@
 (** Comparators evaluated on the cases the harness produced for C14 (no proofs). *)
-From WM Require Import Base.Prelude Dedup.Model.
+From WM Require Import Base.Prelude Dedup.Model Dedup.Timed.
 Local Open Scope Z_scope.
 
 (** * hashers *)
@@ -268,8 +268,13 @@ Definition delivered_ok (fixed : bool) (ops : list opspec) (ans : list bool) (os
      | _, _ => false
      end) ops ans os.
 
+(** slack of the freshness verdict on the implementation, in windows past the expiry
+    (C14_timely_trace_fresh proves p + 3d for the timely model; the documentation says 1/2) *)
+Definition fresh_slack : Z := 7.
+
 Definition conc_violation (c : conc_case) : list nat :=
   (if mon_ok (cc_w c) (cc_t0 c) (cc_events c) then [] else [20%nat]) ++
+  (if dups_fresh (cc_w c) (fresh_slack * cc_w c) ([], cc_t0 c) (cc_events c) then [] else [22%nat]) ++
   (if forallb (fun p => delivered_ok (cc_fixed c) (fst (fst p)) (snd (fst p)) (snd p))
         (combine (combine (cc_threads c) (cc_answers c)) (cc_obs c)) then [] else [21%nat]).
 
